@@ -1423,6 +1423,9 @@ class SingleDot(DotProduct):
             Y = Y[:, self.index : self.index + 1]
         return super(SingleDot, self).__call__(X, Y, eval_gradient)
 
+    def diag(self, X):
+        return super(SingleDot, self).diag(X[:, self.index : self.index + 1])
+
 
 class DensityNoise(StationaryKernelMixin, GenericKernelMixin, Kernel):
     def __init__(self, index=0):
@@ -1607,7 +1610,7 @@ class ADKernel(Kernel):
         return self.k.__call__(X, Y, eval_gradient)
 
     def diag(self, X):
-        return self.k.diag(X)
+        return self.k.diag(X[:, self.active_dims])
 
     def __repr__(self):
         return self.k.__repr__()
@@ -1648,6 +1651,11 @@ class SpinSymKernel(ADKernel):
             return kup[0] + kdown[0], kup[1] + kdown[1]
         else:
             return kup + kdown
+
+    def diag(self, X):
+        return self.k.diag(X[:, self.up_active_dims]) + self.k.diag(
+            X[:, self.down_active_dims]
+        )
 
 
 class SubsetRBF(_SubsetMixin, DiffRBF):
